@@ -90,7 +90,7 @@ fn gen_base(r: &mut Rng, kv: &BTreeMap<String, Vec<MV>>) -> Base {
 }
 
 fn main() {
-    quiet_panics();
+    if std::env::var("VERIF_LOUD").is_err() { quiet_panics(); }
     let a = args();
     let mut r = Rng::new(a.seed);
     let mut cw = CaseWriter::new(&a.out, "Corr.C19", 60);
@@ -142,7 +142,7 @@ fn main() {
                     0 => Ex::Lit(c1.clone()),
                     1 => Ex::Param(1),
                     _ => { let pool: Vec<MV> = kv.get(key).cloned().unwrap_or_default().into_iter().filter(|v| v != c1 && (matches!(v, MV::Int(i) if *i >= 0) || matches!(v, MV::Str(_) | MV::Bool(_)))).collect();
-                           Ex::Lit(if pool.is_empty() { match c1 { MV::Int(i) => MV::Int(i + 1), _ => MV::Int(0) } } else { g.r.pick(&pool).clone() }) }
+                           Ex::Lit(if pool.is_empty() { match c1 { MV::Int(i) => MV::Int(if *i == i64::MAX { *i - 1 } else { *i + 1 }), _ => MV::Int(0) } } else { g.r.pick(&pool).clone() }) }
                 };
                 let eq = if g.r.chance(1, 4) { Ex::Bin(Bin::Eq, Box::new(c2), Box::new(Ex::Prop(*x, key.clone()))) } else { Ex::Bin(Bin::Eq, Box::new(Ex::Prop(*x, key.clone())), Box::new(c2)) };
                 g.kinds.entry("inline-map+where-equality".to_string()).and_modify(|c| *c += 1).or_insert(1);
